@@ -151,7 +151,26 @@ def make_pair(seed, i):
             return (el, "") if where == "front" else ("", el)
         return ("", "")
 
-    hooks = {"root_attrs": [("xmlns:fx", FNS)], "insert": insert, "attrs": attrs, "leaf": leaf}
+    # foreign elements in front of ANY standard element of ANY structure outside prototypes (pose, rotation, bounds,
+    # limits, date/time structures, image representations ...), named like the sibling they precede or like others
+    sib_budget = [plan_r.choice([0, 1, 2, 4])]
+
+    def sibling(x, before_tag):
+        if sib_budget[0] > 0 and plan_r.random() < 0.04:
+            sib_budget[0] -= 1
+            cls = plan_r.choice(["same-as-next", "standard-name", "random-name"])
+            if cls == "same-as-next":
+                saved = STD_NAMES[:]
+                STD_NAMES[:] = [before_tag]
+                try:
+                    name, kind = foreign_element(plan_r, x, "standard-name")
+                finally:
+                    STD_NAMES[:] = saved
+            else:
+                name, kind = foreign_element(plan_r, x, cls)
+            log.append({"site": "before-any-sibling", "name_class": cls, "name": name, "kind": kind, "form": LAST_FORM[0]})
+
+    hooks = {"root_attrs": [("xmlns:fx", FNS)], "insert": insert, "attrs": attrs, "leaf": leaf, "sibling": sibling}
     if plan_r.random() < 0.4:
         hooks["root_attrs"].append(("fx:note", "foreign attribute on the root"))
         log.append({"site": "root-attribute", "name_class": "attribute", "name": "note", "kind": "attribute", "form": "root-prefix"})
